@@ -217,6 +217,16 @@ def splitWs (x : Str) : List Str :=
       (if acc.2 = [] then acc else (acc.1 ++ [acc.2], [])) else (acc.1, acc.2 ++ [c])) ([], [])
   if r.2 = [] then r.1 else r.1 ++ [r.2]
 
+/-- one turn of the word-wrapping loop of `add_headers`: (finished lines, open line, `last`) -/
+def wrapStep (width : Int) (acc : List (List Str) × List Str × Int) (w : Str) : List (List Str) × List Str × Int :=
+  if (w.length : Int) + acc.2.2 < width - 10 then (acc.1, acc.2.1 ++ [w], acc.2.2 + w.length + 1)
+  else (acc.1 ++ [acc.2.1], [w], w.length + 1)
+
+/-- the description's words, wrapped: the loop, then `lines.append(line)` -/
+def wrapWords (width : Int) (words : List Str) : List (List Str) :=
+  let st := words.foldl (wrapStep width) ([], [], 0)
+  st.1 ++ [st.2.1]
+
 /-- `add_headers(width, title, subtitle, author, email, description, tunings)` -/
 def addHeaders (width : Int) (ttl subtitle author email description : Str) (tunings : List (Str × Str)) : List Line :=
   let result : List Line := [[], centre ((lit "  ").intercalate ((upper ttl).map fun c => [c])) width]
@@ -226,12 +236,7 @@ def addHeaders (width : Int) (ttl subtitle author email description : Str) (tuni
                                      else lit "Written by: " ++ author) width]
     else result
   let result := if description ≠ [] then
-      let words := splitWs description
-      let st := words.foldl (fun (acc : List (List Str) × List Str × Int) w =>
-        let (lines, line, last) := acc
-        if (w.length : Int) + last < width - 10 then (lines, line ++ [w], last + w.length + 1)
-        else (lines ++ [line], [w], w.length + 1)) ([], [], 0)
-      result ++ [[], []] ++ (st.1 ++ [st.2.1]).map fun line => centre ((lit " ").intercalate line) width
+      result ++ [[], []] ++ (wrapWords width (splitWs description)).map fun line => centre ((lit " ").intercalate line) width
     else result
   let result := if tunings ≠ [] then
       result ++ [[], [], centre (lit "Instruments") width] ++
